@@ -13,8 +13,9 @@
    os.LookupEnv is a finite association list (first binding wins; the
    harness never binds a name twice).
 
-   Outcome codes added here.  Err: 5 "empty dialsenv tag".  Panic: 4
-   reflect.StructOf duplicate field, 6 Type.Elem of a non-pointer leaf type. *)
+   Outcome codes added here.  Err: 4 two flattened fields with one Go name
+   (TranslateType reports it since the fix; reflect.StructOf panicked before),
+   5 "empty dialsenv tag".  Panic: 6 Type.Elem of a non-pointer leaf type. *)
 From Coq Require Import String.
 From Coq Require Import List NArith ZArith Bool.
 From Dials Require Import Base.Outcome Base.Runes Reflect.Ty Stack.Overlay Text.CaseConv
@@ -81,7 +82,7 @@ Definition env_leaf_var (prefix : str) (l : leaf) : outcome str :=
 Definition env_plan (prefix : str) (pfs : fields) : outcome (list (leaf * str)) :=
   ls <- flatten env_cfg (alias_fields env_alias_keys pfs) ;;
   tags <- omapM env_final_tags ls ;;
-  if has_dup (map lf_name ls) then Panic 4 else
+  if has_dup (map lf_name ls) then Err 4 else
   vars <- omapM (env_var prefix) tags ;;
   Ok (combine ls vars).
 
